@@ -21,7 +21,7 @@ SPEC = {
             "(IsTrustedPeer of 6 peers incl. self after each), and 8 fixed + VERIF_N/4 generated two-peer publications. "
             "non-trivial = every RPC case, every trust case with a non-empty history, every publication; distinct = distinct canonical JSON input",
     "codes": {1: "model_eq_impl (C07: authorize / trust_crdt / validator over the generated tables = what the peer did)",
-              2: "spec_okb (C07: a remote caller got past authorization on an endpoint that is neither open nor (trusted-caller and not local-only); or an update signed by an untrusted peer was merged)"},
+              2: "spec_okb (C07: a remote caller got past authorization on an endpoint that is neither open nor (trusted-caller and not local-only); or an update signed by an untrusted peer was merged; or a peer that is neither the component itself nor written in trusted_peers (and no \"*\" is) is trusted after loading the configuration)"},
     "trusted": ["tools/gen/policy.go, tools/gen/rpcmethods.go (syntactic; cross-checked at run time: CMethods = reflection on the service objects, CPolicy = cfg.RPCPolicy after Config.Default())",
                 "go-libp2p-gorpc v0.1.3: the authorize function is consulted for every remote call and never for a call through the local server object (observed by the grid, not proved)",
                 "harness/root/rig_c07_test.go fakes: consensus over an in-memory dsstate delegating IsTrustedPeer/Trust/Distrust to the real raft / crdt component; benign IPFS connector and tracker",
